@@ -178,7 +178,7 @@ func (d *diff) IsGeneratedIndexName(_ *schema.Table, idx *schema.Index) bool {
 	case d.SupportsIndexExpr() && idx.Name == f:
 		return true
 	case d.SupportsIndexExpr() && strings.HasPrefix(idx.Name+"_", f):
-		i, err := strconv.ParseInt(strings.TrimLeft(idx.Name, idx.Name+"_"), 10, 64)
+		i, err := strconv.ParseInt(strings.TrimPrefix(idx.Name, f+"_"), 10, 64)
 		return err == nil && i > 1
 	case len(idx.Parts) == 0 || idx.Parts[0].C == nil:
 		return false
